@@ -223,6 +223,13 @@ func c12Check(c c12Case) (why string, ran int, skip string) {
 				continue
 			}
 		}
+		if name == "cond" || name == "notcond" {
+			// as a condition a leading negation is folded into the jump: an absent operand fails as the
+			// condition (type error) instead of as the operand of the negation (nil error); the class is open
+			if sameOutcome(got, base, "negated-cond") {
+				continue
+			}
+		}
 		if got != base {
 			return fmt.Sprintf("as a statement: %v\nembedded as %q: %v\n%s", base, name, got, strings.Join(value[name], "\n")), ran, ""
 		}
